@@ -198,6 +198,12 @@ def iso_req(q, rng, keys, fail=""):
     if m == "em" and not keys:
         r.update(via="emMulti")
     r.update(q=q, keys=keys, fail=fail, noret=rng.random() < 0.2)
+    if rng.random() < 0.06:
+        # a request the pool must refuse (window larger than the rule set / non-positive sizes): it runs nothing and
+        # hands back nothing of anybody else
+        r.update(method=rng.choice(["ExecuteNSortMConcurrent", "ExecuteNConcurrentMSort", "ExecuteNConcurrentMConcurrent",
+                                    "ExecuteSelectedNSortMConcurrent"]), via="direct", names=["own", "pa"],
+                 n=rng.choice([5, 0, -1, 9]), m=rng.choice([5, 1, 0]), fail="")
     return r
 
 
@@ -626,7 +632,9 @@ def check_c07(run):
                 elif k == "incrNew":
                     ups.append({"kind": "incr", "rules": V(ver, ("r4",)), "names": []})
                 else:
-                    ups.append({"kind": "remove", "rules": [], "names": [rng.choice(["r1", "r2", "r4"])]})
+                    x = rng.choice(["r1", "r2", "r4"])
+                    # sometimes padded with unknown and repeated names (as many names as rules or more)
+                    ups.append({"kind": "remove", "rules": [], "names": rng.choice([[x], [x], [x, "zz", "yy", x], ["zz", x, "zz"]])})
             reqs = []
             for _ in range(rng.randint(1, mx + 2)):
                 q += 1
@@ -667,7 +675,8 @@ def check_c07(run):
                 elif k == "incrMix":
                     ups.append({"kind": "incr", "rules": V(ver, (rng.choice(["r1", "r2"]), rng.choice(["r5", "r6"]))), "names": []})
                 elif k == "remove":
-                    ups.append({"kind": "remove", "rules": [], "names": [rng.choice(["r1", "r2", "r3", "r4"])]})
+                    x = rng.choice(["r1", "r2", "r3", "r4"])
+                    ups.append({"kind": "remove", "rules": [], "names": rng.choice([[x], [x], [x, "zz", "yy", x, "zz"]])})
                 elif k == "clear":
                     ups.append({"kind": "clear", "rules": [], "names": []})
                 else:
